@@ -346,7 +346,7 @@ def handleDom2 (op : String) (args res : List Sexp) : Verdict :=
       if pr.istop && pr.isbot then throw (.unsound s!"[C04] {ctx}: is_top and is_bottom both answer yes")
       -- C03: every witness of the collecting semantics satisfies every exported fact
       match wd.findSome? (fun σ => (violates pr.facts σ).map (fun f => (σ, f))) with
-      | some (σ, f) => throw (.unsound s!"[C03] {ctx}: witness state {showState σ} of the collecting semantics violates {f}")
+      | some (σ, f) => throw (.unsound s!"[C03]{if kind == "join" || kind == "meet" || kind == "joineq" || kind == "meeteq" then "[C04]" else ""} {ctx}: witness state {showState σ} of the collecting semantics violates {f}")
       | none => pure ()
       -- C03: queries
       match kind, pr.ent, o with
